@@ -178,9 +178,12 @@ def correspondence_ext(ctx: Ctx):
         acs_image, _ = base.gen_coil_image(rng, b, c, spatial, kind)
         shape = list(calib.shape)
 
-        def run(ty=ty, calib=calib, acs_image=acs_image, shape=shape):
+        form = ["member", "lower", "upper", "mixed"][(i // 3) % 4]
+
+        def run(ty=ty, calib=calib, acs_image=acs_image, shape=shape, form=form):
             op = base.Identity()
             typ = [SensitivityMapType.UNIT, SensitivityMapType.RSS_ESTIMATE, SensitivityMapType.ESPIRIT][ty]
+            typ = enum_forms(typ)[form]           # member / lower / UPPER / Mixed-case string: same behaviour expected
             mod = EstimateSensitivityMapModule(backward_operator=op, type_of_map=typ)
             pc = PlantedCalib(calib)
             if ty == 2:
@@ -193,7 +196,8 @@ def correspondence_ext(ctx: Ctx):
                 return "err BranchCalls"
             return base.ok_rats(shape, out)
         yield {"line": base.pline("forward", [ty], shape, base.int_data(calib), base.int_data(acs_image)), "impl": base._impl(run),
-               "nontrivial": c >= 2, "bucket": f"forward/{['unit', 'rss', 'espirit'][ty]}/{size_class(spatial)}/c={c}"}
+               "nontrivial": c >= 2, "key": ("forward", i, form),
+               "bucket": f"forward/{['unit', 'rss', 'espirit'][ty]}/{form}/{size_class(spatial)}/c={c}"}
     # ---- which refinement model the engine applies (all 16 combinations) ------------------------------------------
     eng = base.toy_engine()
     for mc in (0, 1):
@@ -683,6 +687,72 @@ def oracle_boundary(ctx: Ctx, deep: bool):
 
 
 # --------------------------------------------------------------------------------------------------
+# oracle: enum-valued options given as member / lower-case / UPPER-case / Mixed-case string behave identically
+def enum_forms(member):
+    v = str(member.value)
+    return {"member": member, "lower": v.lower(), "upper": v.upper(), "mixed": "_".join(w.capitalize() for w in v.split("_"))}
+
+
+def enum_form_case(spec: dict):
+    """the map computed with `type_of_map` (and `kspace_key`) given in the form `spec['form']` equals, bit for bit, the
+    one computed with the enum member, and is unit-or-zero / finite"""
+    import numpy as np
+    import direct.data.transforms as T
+    from direct.common.subsample import FastMRIEquispacedMaskFunc
+    from direct.data.mri_transforms import (EstimateSensitivityMap, EstimateSensitivityMapModule, SensitivityMapType,
+                                            build_mri_transforms)
+    from direct.types import KspaceKey
+
+    member = SensitivityMapType(spec["typ"])
+    form, seed, c = spec["form"], spec["seed"], spec["c"]
+    outs = []
+    for f in ("member", form):
+        typ = enum_forms(member)[f]
+        with warnings.catch_warnings():
+            warnings.simplefilter("ignore")
+            if spec["site"] == "pipeline":
+                rs = np.random.RandomState(seed)
+                mf = FastMRIEquispacedMaskFunc(accelerations=[2], center_fractions=[0.25])
+                tr = build_mri_transforms(T.fft2, T.ifft2, mf, estimate_sensitivity_maps=True, sensitivity_maps_type=typ,
+                                          sensitivity_maps_espirit_kernel_size=2, sensitivity_maps_espirit_max_iters=5, use_seed=True)
+                shape = (c, 8, 24)
+                ks = (rs.randn(*shape) + 1j * rs.randn(*shape)).astype(np.complex64)
+                outs.append(tr({"kspace": ks, "filename": "f", "slice_no": 0})["sensitivity_map"].unsqueeze(0))
+            else:
+                shape = [1, c, 6, 8, 2]
+                k = _kdata(seed, shape, 0, "plain")
+                acs = torch.zeros(1, 1, 6, 8, 1, dtype=torch.bool)
+                acs[..., 1:7, :] = True
+                # `kspace_key` is a dictionary key: only the member and its own value are valid forms
+                kkey = KspaceKey.KSPACE if f == "member" else "kspace"
+                kw = dict(kspace_key=kkey, backward_operator=T.ifft2, type_of_map=typ, espirit_kernel_size=2, espirit_max_iters=5)
+                if spec["site"] == "wrapped":
+                    outs.append(EstimateSensitivityMap(**kw)({"kspace": k[0].clone(), "acs_mask": acs[0].clone()})["sensitivity_map"].unsqueeze(0))
+                else:
+                    outs.append(EstimateSensitivityMapModule(**kw)({"kspace": k.clone(), "acs_mask": acs.clone()})["sensitivity_map"])
+    if outs[0].shape != outs[1].shape or not torch.equal(torch.nan_to_num(outs[0], nan=7.0), torch.nan_to_num(outs[1], nan=7.0)):
+        return "enum-form-dependence", (f"type_of_map given as {enum_forms(member)[form]!r} gives a different sensitivity map than "
+                                        f"the enum member {member!r}")
+    return base.check_map(outs[1], None, "enum-form")
+
+
+def oracle_enum_forms(ctx: Ctx, deep: bool):
+    rng = ctx.rng
+    for typ in ("unit", "rss_estimate", "espirit"):
+        for form in ("lower", "upper", "mixed"):
+            for site in ("module", "wrapped", "pipeline"):
+                for _ in range(ctx.budget(1, 4)):
+                    spec = {"typ": typ, "form": form, "site": site, "c": rng.choice([2, 3]), "seed": rng.randrange(1, 2 ** 20)}
+                    ctx.count(("o-enum-form", typ, form, site, spec["c"], spec["seed"]), True, bucket=f"oracle/enum-form/{typ}/{form}/{site}")
+                    try:
+                        res = enum_form_case(spec)
+                    except Exception as e:  # noqa: BLE001
+                        res = ("enum-form-raises", f"type_of_map given as a {form}-case string raises {err_name(e)}: {str(e)[:200]}")
+                    if res:
+                        yield Violation(res[0], res[1] + f" [{spec}]", {"op": "enum_form", "spec": spec})
+
+
+# --------------------------------------------------------------------------------------------------
 # oracle: non-finite k-space entries OFF the ACS mask never reach the map (apply_mask = where(mask == 0, 0, k))
 def offmask_case(spec: dict):
     import direct.data.transforms as T
@@ -864,6 +934,7 @@ def oracle_extremes(ctx: Ctx, deep: bool):
 
 # --------------------------------------------------------------------------------------------------
 def oracle_ext(ctx: Ctx, deep: bool):
+    yield from oracle_enum_forms(ctx, deep)
     yield from oracle_extremes(ctx, deep)
     yield from oracle_offmask(ctx, deep)
     yield from oracle_matrix(ctx, deep)
@@ -879,6 +950,8 @@ def replay_ext(rep: dict):
     op = rep.get("op")
     if op == "matrix":
         return matrix_case(rep["spec"]) is not None
+    if op == "enum_form":
+        return enum_form_case(rep["spec"]) is not None
     if op == "offmask":
         return offmask_case(rep["spec"]) is not None
     if op == "extreme":
